@@ -448,6 +448,17 @@ func (l Letter) BuildTraces() ptrace.Traces {
 	return td
 }
 
+// putAllAttrs gives one item a distinct value of every attribute type, so
+// every dictionary column of the attribute record moves in the same batch.
+func putAllAttrs(m pcommon.Map, val string, n int) {
+	m.PutStr("s", val)
+	m.PutInt("i", int64(1000000+n))
+	m.PutDouble("d", float64(n)+0.5)
+	m.PutEmptyBytes("b").FromRaw([]byte(val))
+	m.PutEmptyMap("m").PutStr("x", val)
+	m.PutEmptySlice("l").AppendEmpty().SetStr(val)
+}
+
 func rampTraces(td ptrace.Traces, r *Ramp) {
 	ss := td.ResourceSpans().AppendEmpty().ScopeSpans().AppendEmpty()
 	n := 0
@@ -475,6 +486,13 @@ func rampTraces(td ptrace.Traces, r *Ramp) {
 				e := sp.Events().AppendEmpty()
 				e.SetName(val)
 				e.Attributes().PutStr("ek", val)
+			case "allattrs":
+				sp.SetName("a")
+				putAllAttrs(sp.Attributes(), val, r.Base+v)
+			case "allattrs32":
+				sp.SetName("a")
+				putAllAttrs(sp.Events().AppendEmpty().Attributes(), val, r.Base+v)
+				putAllAttrs(sp.Links().AppendEmpty().Attributes(), val, r.Base+v)
 			}
 		}
 	}
@@ -1021,6 +1039,19 @@ func (l Letter) BuildMetrics() pmetric.Metrics {
 					dp.SetIntValue(1)
 					dp.Attributes().PutStr("k", val)
 					dp.Attributes().PutInt("ki", int64(r.Base+v))
+				case "allattrs", "allattrs32":
+					m.SetName("m")
+					dp := m.SetEmptyGauge().DataPoints().AppendEmpty()
+					dp.SetIntValue(1)
+					putAllAttrs(dp.Attributes(), val, r.Base+v)
+					if r.Kind == "allattrs32" {
+						hp := sm.Metrics().AppendEmpty()
+						hp.SetName("h")
+						h := hp.SetEmptyHistogram().DataPoints().AppendEmpty()
+						h.SetCount(1)
+						putAllAttrs(h.Attributes(), val, r.Base+v)
+						putAllAttrs(h.Exemplars().AppendEmpty().FilteredAttributes(), val, r.Base+v)
+					}
 				case "units":
 					m.SetName("m")
 					m.SetUnit(val)
